@@ -82,6 +82,28 @@ type runner struct {
 	m     *model.Model
 	trace []string
 	now   int64
+	// replies accepted only because of known finding C08-negative-zero-score-sign
+	zeroSign int
+}
+
+const findingNegZero = "C08-negative-zero-score-sign"
+
+// unsignZero rewrites every bulk "-0" of a sorted-set reply to "0" (scores only: no member
+// of the vocabulary is called "-0").
+func unsignZero(v resp.Val) resp.Val {
+	switch v.Kind {
+	case 'b':
+		if v.S == "-0" {
+			v.S = "0"
+		}
+	case 'a':
+		a := make([]resp.Val, len(v.A))
+		for i := range v.A {
+			a[i] = unsignZero(v.A[i])
+		}
+		v.A = a
+	}
+	return v
 }
 
 func (r *runner) exec(c []string) (resp.Val, resp.Val) {
@@ -111,6 +133,12 @@ func (r *runner) check(c []string, what string) {
 	got, want := r.exec(c)
 	if rep := got; rep.Kind == 'e' && strings.HasPrefix(rep.S, "HARNESS-SHAPE") {
 		r.t.Fatalf("%s: %s\ntrace:\n%s", what, rep.S, r.dump())
+	}
+	if !resp.Equal(got, want) && known.Active(findingNegZero) && strings.HasPrefix(c[0], "z") && resp.Equal(unsignZero(got), unsignZero(want)) {
+		// recorded finding: the sign of a zero score is not reported the way Redis reports it
+		// (everything else of the reply - members, order, counts - is compared as usual)
+		r.zeroSign++
+		return
 	}
 	if !resp.Equal(got, want) {
 		r.t.Fatalf("%s: reply differs from the reference model\n  command: %s\n  got:  %s\n  want: %s\ntrace (command -> implementation reply):\n%s", what, gen.Quote(c), got, want, r.dump())
@@ -211,6 +239,10 @@ func runCase(t *rapid.T, o opts) {
 	pool.Excluded = &excluded
 	pool.NoDupArgs = known.Active("C08-duplicate-argument-counted-twice")
 	pool.NoFrac = known.Active("C08-exclusive-score-bound-integer-step")
+	negZero := rapid.IntRange(0, 3).Draw(t, "negzero") == 0
+	if negZero {
+		pool.Scores[0] = "-0" // the same number as 0 with another spelling: ties, by-score bounds, ZINCRBY by nothing
+	}
 	g := gen.NewGrammar(gen.FamKV|gen.FamHash|gen.FamList|gen.FamSet|gen.FamZSet, gen.FarDurations)
 	n := rapid.IntRange(1, 60).Draw(t, "ncmds")
 	sim, err := simkv.New(simkv.Options{Engine: o.engine, ExpPolicy: o.policy, Partitions: o.parts})
@@ -268,6 +300,10 @@ func runCase(t *rapid.T, o opts) {
 		labels = append(labels, "odd_index_on_nonempty")
 	}
 	rc := rec(o.rec)
+	excluded += r.zeroSign
+	if negZero {
+		labels = append(labels, "negative_zero_in_score_pool")
+	}
 	if excluded > 0 {
 		rc.Count("excluded_by_known_finding", int64(excluded))
 	}
